@@ -1,0 +1,4 @@
+#ifndef PPL_BUGS_hh
+#define PPL_BUGS_hh 1
+extern const char* const BUGS_array[23];
+#endif // !defined(PPL_BUGS_hh)
